@@ -684,6 +684,39 @@ def gen_ipc_laps(rng, per_target):
     return out
 
 
+def gen_ipc_aligned(rng, n):
+    """strata "exactly aligned" (both transverse components exactly 0.0: lattice neighbours, head-on approach) and
+    "one transverse component exactly zero" of the C 1/r bounding potential, through the Python class: all three
+    directions, both signs of the charge product, in front of / behind the target, several box lengths, budgets
+    from 1e-3 to 1e3 times the current energy scale"""
+    out = []
+    for i in range(n):
+        L = (1.0, 2.0, 3.7, 0.5, 10.0)[i % 5]
+        d = i % 3
+        pref = rng.choice([1.5837, 1.0, 2.5])
+        c1 = rng.choice([1.0, 0.5, 2.0, 1.3])
+        c2 = rng.choice([1.0, 0.5, 2.0, 0.7]) * (1 if (i // 3) % 2 == 0 else -1)
+        behind = (i // 6) % 2 == 0
+        x = rng.uniform(0.02, 0.5) * L * (1 if behind else -1)
+        if rng.random() < 0.1:
+            x = math.copysign(L / 2, x)
+        sep = [0.0, 0.0, 0.0]
+        kind = "aligned" if (i // 12) % 2 == 0 else "onezero"
+        if kind == "onezero":
+            other = [j for j in range(3) if j != d]
+            sep[rng.choice(other)] = rng.uniform(-L / 2, L / 2)
+        else:
+            for j in range(3):
+                sep[j] = rng.choice([0.0, -0.0])
+        sep[d] = x
+        scale = abs(pref * c1 * c2) / abs(x)
+        dE = scale * 10.0 ** rng.uniform(-3, 3)
+        op = {"k": "ipc_disp", "pref": f2b(pref), "c1": f2b(c1), "c2": f2b(c2), "sep": bits(sep), "dir": d,
+              "speed": f2b(rng.choice(SPEEDS)), "dE": f2b(dE), "L": f2b(L)}
+        out.append({"fam": "ipc", "op": op, "stratum": kind})
+    return out
+
+
 # ------------------------------------------------------------------------------------------------
 # case construction: driver op + implementation result -> mirror evaluation + Coq statement
 def fl(op, name):
@@ -951,7 +984,10 @@ def ipc_energy(kc, x, q, L, s):
     if t < 0:
         t += L
     t -= L / 2
-    return kc / math.sqrt(t * t + q)
+    r = math.sqrt(t * t + q)
+    if r == 0.0:
+        return math.copysign(INF, kc)     # on top of an image (only for exactly aligned units)
+    return kc / r
 
 
 def sqrt_bounds(fr, digits=45):
@@ -973,6 +1009,51 @@ def ipc_exact_laps(kc, q, L, dE):
     return (n_lo if n_lo == n_hi else None), (lo + hi) / 2
 
 
+def posvar_ext(vals):
+    """positive variation of a sampled extended-real sequence (values may be +-inf at an image)"""
+    tot = 0.0
+    for a, b in zip(vals, vals[1:]):
+        if a == b:
+            continue
+        inc = b - a
+        if inc == inc and inc > 0:
+            tot += inc
+    return tot
+
+
+def oracle_ipc_aligned(kc, x, L, dE, d, res):
+    """the two units exactly aligned along the motion (transverse separation exactly zero): U = kc / |nearest image|
+    is +-inf on top of an image, the uphill energy of one box traversal is infinite, so no whole lap is ever
+    completed and a finite event distance always exists: repulsive -- before reaching the image in front; attractive
+    -- at the latest on top of the next image (the well is infinitely deep).  Bracket E(d-) <= budget <= E(d+)."""
+    delta = 16 * math.ulp(max(abs(d), L)) + 1e-9 * L
+    if d < -delta:
+        return "negative displacement %r for exactly aligned units" % res
+    if d > 2 * L + delta:
+        return "displacement %r L exceeds two box lengths for exactly aligned units" % (d / L)
+    lo, hi = max(d - delta, 0.0), d + delta
+    pts = {0.0, lo, hi}
+    m = 0
+    while x + m * L / 2 <= hi and m < 12:
+        if 0 < x + m * L / 2:
+            pts.add(x + m * L / 2)
+        m += 1
+    for j in range(1, 65):
+        pts.add(hi * j / 64)
+    pts = sorted(pts)
+    en = [ipc_energy(kc, x, 0.0, L, s) for s in pts]
+    E_lo = posvar_ext(en[:pts.index(lo) + 1])
+    E_hi = posvar_ext(en)
+    eps = 1e-10 * abs(kc) / L + 1e-9 * dE
+    if E_lo > dE * (1 + 1e-9) + eps:
+        return "exactly aligned units: uphill energy %.17g already exceeds the budget %.17g before the returned " \
+               "distance %r" % (E_lo, dE, res)
+    if E_hi < dE * (1 - 1e-9) - eps:
+        return "exactly aligned units: uphill energy %.17g at the returned distance %r is below the budget %.17g" % (
+            E_hi, res, dE)
+    return None
+
+
 def oracle_ipc(c, res):
     """C 1/r bounding potential with periodic images, stated without the Coq model: the positive variation of the
     nearest-image potential gains exactly g = |U(0) - U(L/2)| per box length, so with n = floor(budget / g) (exact):
@@ -985,6 +1066,8 @@ def oracle_ipc(c, res):
     if res == INF or res != res:
         return "1/r bounding displacement returned %r" % res
     d = Fr(res) * Fr(fl(op, "speed"))
+    if q == 0:
+        return oracle_ipc_aligned(float(kc), x, float(L), float(dE), float(d), res)
     n, g = ipc_exact_laps(kc, q, L, dE)
     if n is None:
         return None
@@ -1233,7 +1316,8 @@ def run(ctx, cases_override=None):
     else:
         cases = (gen_ip(rng, int(N * 0.3)) + gen_mh(rng, int(N * 0.27), "lj") + gen_mh(rng, int(N * 0.2), "dep")
                  + gen_hs(rng, int(N * 0.08)) + gen_hs(rng, int(N * 0.04), "hd") + gen_cb(rng, int(N * 0.03))
-                 + gen_ipc(rng, int(N * 0.08)) + gen_ipc_laps(rng, ctx.n(2, 12)))
+                 + gen_ipc(rng, int(N * 0.08)) + gen_ipc_laps(rng, ctx.n(2, 12))
+                 + gen_ipc_aligned(rng, ctx.n(48, 480)))
         tot = gen_totality(rng, ctx.n(3000, 60000))
         prb = probes()
     allc = cases + tot + prb
@@ -1282,6 +1366,11 @@ def run(ctx, cases_override=None):
         if v is None or v != v:
             skipped["impl_failed"] += 1
             continue
+        if c["fam"] == "ipc" and xq(sepv(c["op"]), c["op"]["dir"])[1] == 0:
+            # exactly aligned units: U(0) is infinite, which the real model cannot express (x / 0 = 0 in Coq);
+            # covered by the extended-real oracle only
+            skipped["ipc_exactly_aligned_oracle_only"] = skipped.get("ipc_exactly_aligned_oracle_only", 0) + 1
+            continue
         fn = mirror_fn(c["op"])
         ev = evaluate(fn, rng)
         if ev is None:
@@ -1325,7 +1414,7 @@ def run(ctx, cases_override=None):
             kc = fl(op, "pref") * fl(op, "c1") * fl(op, "c2")
             L = fl(op, "L")
             qf = float(q)
-            c["uscale"] = abs(kc) / math.sqrt(qf)
+            c["uscale"] = abs(kc) / math.sqrt(qf) if qf > 0 else abs(kc) / L
 
             def pts_fn(hi, x=x, L=L):
                 pts = {0.0, hi}
@@ -1422,6 +1511,8 @@ def run(ctx, cases_override=None):
         "oracle_failures": len(viol),
         "totality_stream": {"cases": len(tot), "known_finding_hits": {k: len(v) for k, v in known_hits.items()}},
         "probes": len(prb),
+        "ipc_aligned_strata": {"exactly_aligned_oracle_only": sum(1 for c in cases if c.get("stratum") == "aligned"),
+                               "one_transverse_component_zero": sum(1 for c in cases if c.get("stratum") == "onezero")},
         "ipc_lap_strata": {str(t): sum(1 for c in cases if c.get("lap_target") == t) for t in LAP_TARGETS},
         "traces_validated_against_impl": nproved,
         "case_files": nfiles, "case_files_ok": nok,
